@@ -3,7 +3,9 @@ from __future__ import annotations
 
 import hashlib
 import os
+import struct
 
+from vf import cli
 from vf.core import EnumPart, HarnessError, HypPart, Oracle, VERIF_DIR
 from vf.gen import keys as K
 from vf.gen import mbi as G
@@ -18,7 +20,8 @@ TECHNIQUE = (
     "mixed sizes, every root slot, P-256/P-384 root sets with/without ISK and user data), payloads and options; every exported image is "
     "judged by an spsdk-free boot-ROM acceptance model (CRC-32/MPEG-2, certificate block v1/v2.1/vX, RSA/ECDSA verification, HMAC, "
     "manifest, AES-CTR) calibrated on stored golden images; authenticated byte ranges are compared with the image; single-bit "
-    "corruptions confirm that the model covers every region"
+    "corruptions confirm that the model covers every region; about one case in six is also built by the real `nxpimage mbi export` "
+    "command and its output file judged by the same model"
 )
 LEVEL_TEXT = (
     "exploration: each generated protected image must be accepted by the independent ROM model, the keys/hashes/fields the model finds "
@@ -42,7 +45,7 @@ ASSUMPTIONS = [
     "NXP-signed classes and the MC56F81xxx ISK certificate use self-made keys",
 ]
 # about one third of the smallest share seen in clean quick runs with seeds 1, 2, 3, 7, 1234 (see notes/c02-report.md)
-FLOORS = {"len%16!=0": 0.15, "certv1": 0.04, "certv21": 0.05, "crc": 0.04, "hmac": 0.015, "encrypted": 0.006, "chain_mixed": 0.0125,
+FLOORS = {"cli": 0.03, "len%16!=0": 0.15, "certv1": 0.04, "certv21": 0.05, "crc": 0.04, "hmac": 0.015, "encrypted": 0.006, "chain_mixed": 0.0125,
           "root_size!=signer_size": 0.01, "isk": 0.02, "used_root:1": 0.0075, "flips_checked": 0.45}
 
 FIX = os.path.join(VERIF_DIR, "fixtures", "c02")
@@ -154,18 +157,46 @@ def run_case(case, o: Oracle) -> None:
         return
     obj, img = res
     o.artifact("image", img)
+    rep = _judge(case, b, o, img, obj, info)
 
+    # ------------------------------------------------------------------ (h) the same configuration through `nxpimage mbi export`
+    if cli.selected(case, CLI_ONE_IN):
+        data, res = G.nxpimage_mbi_export(b, o)
+        if data is not None:
+            co = cli.Scoped(o, "mbi_export")
+            rep_cli = None
+            try:
+                rep_cli = _judge(case, b, co, data, None, info)
+            except (ValueError, IndexError, KeyError, struct.error) as exc:  # the model met a file it cannot even walk
+                co.fail("rom_accepts", "unreadable:%s" % type(exc).__name__, "%d bytes written by the command (library: %d): %s" % (len(data), len(img), exc))
+            co.eq("twin", "length", len(data), len(img))
+            if G.deterministic_build(b):
+                # nothing random goes into this image: the command and the library call sequence agree byte for byte
+                co.check("twin", data == img, "bytes", first_diff(data, img))
+            if rep_cli is not None and rep_cli.get("scheme") in ("rsa", "ecc"):
+                # the root-of-trust hash the command prints is the one the ROM model computes from the image
+                want = rep_cli["rkth"] if rep_cli["scheme"] == "rsa" else rep_cli["rot_hash"]
+                co.check("rkth", ("RKTH: %s" % bytes(want).hex()) in res.output, "printed_value", "model %s, output %s" % (bytes(want).hex(), res.output[:200]))
+
+
+CLI_ONE_IN = 6  # share of the cases that also go through the real command (pure function of the case)
+
+
+def _judge(case, b: G.Built, o, img: bytes, obj, info: dict):
+    """Every oracle on one exported image. `obj` is the image object it came from (None for a file written by the command:
+    the oracles that exercise the object are then left out, as is the model-adequacy self check).  Returns the model's report."""
+    cls = b.cls
     # ------------------------------------------------------------------ (a)-(e) acceptance
     try:
         rep = mbi_rom.check(img, info, b.user_key)
     except mbi_rom.Reject as exc:
         o.fail("rom_accepts", exc.code, str(exc))
-        return
+        return None
     want_scheme = {"v1": "rsa", "v21": "ecc", "vx": "vx"}.get(G.cert_kind(cls)) or ("bca_crc" if info["bca_crc"] else "crc")
     o.eq("rom_accepts", "scheme", rep.get("scheme"), want_scheme)
     # an image object made through the constructor with the same members, the counter IV left out (the API's default): the ROM
     # model must be able to decrypt it with the IV the image carries
-    if "_ctr_init_vector" in vars(obj) or hasattr(type(obj), "_ctr_init_vector"):
+    if obj is not None and ("_ctr_init_vector" in vars(obj) or hasattr(type(obj), "_ctr_init_vector")):
         img_api = None
         with o.spsdk("api_default_iv"):
             twin = type(obj)(**{k: v for k, v in vars(obj).items() if k != "_ctr_init_vector"})
@@ -181,8 +212,9 @@ def run_case(case, o: Oracle) -> None:
             o.label("api_default_iv")
     # the same object exported once more gives an equally acceptable image (byte-identical where nothing random goes in)
     img2 = None
-    with o.spsdk("export_again"):
-        img2 = bytes(obj.export_image().export())
+    if obj is not None:
+        with o.spsdk("export_again"):
+            img2 = bytes(obj.export_image().export())
     if img2 is not None:
         try:
             rep2 = mbi_rom.check(img2, info, b.user_key)
@@ -219,8 +251,9 @@ def run_case(case, o: Oracle) -> None:
         hashes = [rsa_key_hash(*G.rsa_public_numbers(d)) for d in v["slots"]]
         o.eq("cert_v1", "rkh_table", [h.hex() for h in cb.rkh], [h.hex() for h in hashes] + [bytes(32).hex()] * (4 - len(hashes)))
         o.eq("cert_v1", "rkth_reference", rep["rkth"].hex(), rkth_v1(hashes).hex())
-        with o.spsdk("cert_v1", "rkth_property"):
-            o.eq("cert_v1", "rkth_property", bytes(obj.rkth).hex(), rep["rkth"].hex())
+        if obj is not None:
+            with o.spsdk("cert_v1", "rkth_property"):
+                o.eq("cert_v1", "rkth_property", bytes(obj.rkth).hex(), rep["rkth"].hex())
         o.eq("cert_v1", "used_root", rep["used_root"], v["used"])
         o.eq("cert_v1", "certificates", [c.der.hex()[:80] for c in cb.certs], [d.hex()[:80] for d in v["ders"]])
         o.check("cert_v1", [c.der for c in cb.certs] == list(v["ders"]), "certificate_bytes", "certificates in the block differ from the files given")
@@ -234,8 +267,9 @@ def run_case(case, o: Oracle) -> None:
         v = b.v21
         pts = [G.ec_public_xy(r) for r in v["roots"]]
         o.eq("cert_v21", "rot_hash_reference", rep["rot_hash"].hex(), rot_hash(v["curve"], pts).hex())
-        with o.spsdk("cert_v21", "rkth_property"):
-            o.eq("cert_v21", "rkth_property", bytes(obj.rkth).hex(), rep["rot_hash"].hex())
+        if obj is not None:
+            with o.spsdk("cert_v21", "rkth_property"):
+                o.eq("cert_v21", "rkth_property", bytes(obj.rkth).hex(), rep["rot_hash"].hex())
         o.eq("cert_v21", "used_root", cb.used_root, v["used"])
         o.eq("cert_v21", "root_count", cb.root_count, len(v["roots"]))
         o.eq("cert_v21", "root_curve", cb.root_curve, v["curve"])
@@ -277,6 +311,8 @@ def run_case(case, o: Oracle) -> None:
     unc = mbi_rom.uncovered(rep, len(img))
     o.check("coverage", not unc, "unauthenticated_ranges", "bytes %r are outside everything the ROM authenticates" % (unc,))
 
+    if obj is None:
+        return rep
     # ------------------------------------------------------------------ (g) model adequacy (harness self-check)
     seed = hashlib.sha256(repr(sorted(b.labels)).encode() + img[:64]).digest()
     exempt = rep["exempt"]
@@ -295,6 +331,7 @@ def run_case(case, o: Oracle) -> None:
         raise AssertionError("ROM model accepts the image with byte %#x corrupted (scheme %s): the reference does not cover what it claims" % (pos, rep.get("scheme")))
     if nflips:
         o.label("flips_checked")
+    return rep
 
 
 def _classify(b: G.Built, o: Oracle) -> None:
@@ -340,6 +377,7 @@ def _matrix_item(tier: str, i: int):
 
 def parts(ctx):
     _CTX.update(work=ctx.work, seed=ctx.seed, tier=ctx.tier)
+    cli.preload()
     max_len = 8192 if ctx.quick else 131072
     return [
         EnumPart("matrix", _matrix_count, _matrix_item, run_case, exhaustive=False),
